@@ -29,6 +29,10 @@ SUMMARY = {
 'c08g':'Buffer::roll uses a non-overlapping copy clamped to the front length: when fewer than max_pattern_len new bytes arrived since the last roll the retained tail keeps stale bytes (offsets stay correct, bytes written / handed to the closure are wrong)',
 'c17i':'packed::Searcher builds a first-bytes set lazily, one fetch_or per pattern, and treats any non-zero value as complete: a thread (or a clone) that looks while another thread is still filling it rejects haystacks that do match (no UB; sequential use always correct)',
 'c18h':'the done flag is latched after any fill that did not return Ok(true): after a transient read error the next poll returns None although the reader never reported EOF',
+'c07h':'"trickle reader" fast path: when fewer than min_pattern_len unsearched bytes are buffered they are fed to the automaton without the per-byte is_match test - a partial match carried across a refill and completed by a byte that is not the last fresh one is lost (all patterns >= 3 bytes, refills of 2..min-1 bytes)',
+'c08h':'table variant batches replacements of back-to-back matches in a 4 KiB scratch buffer and writes replacements >= 4 KiB straight through without flushing the batch first: a huge replacement overtakes the small one before it',
+'c17j':'AhoCorasick::try_find memoises its last miss in an Arc shared by clones, keyed by haystack address, length, span and first/last byte (not by anchored mode or contents): a later find on an overwritten buffer or after an anchored miss returns None',
+'c18i':'the automaton state is reset to the start state when a fill fails: polling on after a transient read error that lands inside a partial match loses that match or invents one',
 'c18a':'fill returns Ok(true) instead of the error when it had already buffered bytes in the same call: one-shot read errors during the initial fill vanish',
 'c18b':'closure errors of kind Interrupted are retried by calling the closure again: error swallowed, partial output duplicated',
 'c18c':'fill commits its new end only after the loop: an error on a later read of one fill discards bytes accepted earlier; polling on shifts all later offsets',
@@ -46,6 +50,8 @@ for line in sorted(open(os.path.join(ROOT, 'mutants/RESULTS-seeded.txt'))):
     m = re.search(r'\| (C\d\d) exit=(\d) class=(\S+) replay_exit=(\S+)', line)
     if not m: continue
     engine = {'C07': 'streamsim', 'C08': 'streamsim', 'C18': 'streamsim fault enumeration', 'C17': 'threadsim'}[m.group(1)]
+    if name == 'c08h':
+        engine = 'streamsim (after adding 1-70 KiB replacement tables; first missed: replacements were <= 50 bytes)'
     if name == 'c17i':
         engine = 'mirisim only (first-use race class: barrier-synchronised start, short first haystacks, wide alphabets); first missed'
     if name == 'c17h':
